@@ -5,7 +5,7 @@
 Require Import ZArith List Bool Lia.
 From D377 Require Import Base.Certs Base.ZpField Base.FieldSec Base.Fields Model.Decaf Model.Sqrt Model.Concrete Model.OpTable.
 From D377 Require Import Spec.Edwards Proofs.Instance Proofs.Final Proofs.Reach Proofs.SqrtTS Proofs.Ladder Proofs.EdwardsLaw Proofs.Projective Tie.Scalar.
-From D377 Require Generated.Curve Generated.Consts Model.CVal.
+From D377 Require Generated.Curve Generated.Consts Generated.Dep Model.CVal.
 Local Existing Instance FqF.
 Open Scope Z_scope.
 
@@ -24,6 +24,16 @@ Proof. intros p l. rewrite ark_mul_bigint_is. exact (@mul_bigint_correct FqF ark
 Theorem C05_ark_mul_affine : forall P l, on_curve fq_a ark_D P -> limbs_ok l ->
   wfP (ark_mul_affine P l) /\ aff (ark_mul_affine P l) = E_nsmul (nval l) P.
 Proof. intros P l. rewrite ark_mul_affine_is. exact (@mul_affine_correct FqF ark_D d_ns m1_sq add11_nz P l). Qed.
+
+(* the two ladders above ARE the code of the dependency: TECurveConfig::mul_projective / mul_affine of the ark-ec version pinned by
+   Cargo.lock, translated from the registry sources together with the addition and doubling they call (Generated/Dep.v); the only
+   hand-written ingredient is the bit iterator `bits_be_nlz` = ark_ff::BitIteratorBE::without_leading_zeros *)
+Theorem C05_dependency_mul_projective : forall p l,
+  Generated.Dep.dep_mul_projective ark_D mkpt (@Generated.Dep.cfg_mul_by_a FqF) bits_be_nlz p l = ark_mul_bigint p l.
+Proof. reflexivity. Qed.
+Theorem C05_dependency_mul_affine : forall P l,
+  Generated.Dep.dep_mul_affine ark_D mkpt (@Generated.Dep.cfg_mul_by_a FqF) bits_be_nlz P l = ark_mul_affine P l.
+Proof. reflexivity. Qed.
 
 (* minimal build: scalar_mul / scalar_mul_vartime (LSB-first), on the loop regenerated from the source, both CT variants *)
 Definition gen_min_scalar_mul (ct : bool) : pt -> list Z -> pt := Generated.Curve.min_scalar_mul_both min_K mkpt ct.
